@@ -503,6 +503,15 @@ func genC09(g *gen) {
 			g.check(s0 == s1 && s0 == s2, "dil-recovered-signature", "recovered Dilithium key signs differently")
 			g.op("dl.sign d%d %s", i, hx(m))
 		}
+		o1 := g.op("dl.newhex %s", hx([]byte(hs[2:])))
+		o2 := g.op("dl.newmn %s", hx([]byte(d0.GetMnemonic())))
+		g.check(o1 == out && o2 == out, "dil-constructors-agree", "NewDilithiumFromHexSeed / FromMnemonic / FromSeed disagree", g.ops[len(g.ops)-3:]...)
+		if i == 0 {
+			g.op("dl.newhex %s", hx([]byte(hs)))              // with the 0x prefix: refused (documented: without prefix)
+			g.op("dl.newhex %s", hx([]byte(hs[2:len(hs)-2]))) // 47 bytes
+			g.op("dl.newhex %s", hx([]byte(hs[2:len(hs)-1]))) // odd length
+			g.op("dl.newmn %s", hx([]byte(d0.GetMnemonic()+" aback aback")))
+		}
 		mnOut := g.op("m.enc %s", hx(seed[:]))
 		mv, _ := okval(mnOut)
 		g.check(string(unhex(mv)) == d0.GetMnemonic(), "dil-mnemonic", "GetMnemonic != SeedBinToMnemonic(seed)")
